@@ -13,6 +13,7 @@ CVC5 = '/usr/bin/cvc5'
 Z3_TIMEOUT_MS = int(os.environ.get('PYVC_Z3_TIMEOUT_MS', '20000'))
 AUX_TIMEOUT_MS = int(os.environ.get('PYVC_AUX_TIMEOUT_MS', '4000'))
 CVC5_TIMEOUT_S = int(os.environ.get('PYVC_CVC5_TIMEOUT_S', '30'))
+CVC5_CROSS_S = int(os.environ.get('PYVC_CVC5_CROSS_S', '3'))
 
 
 def vc_to_smt2(vc):
@@ -171,7 +172,8 @@ def solve_one(job):
     tz = time.time() - t0
     cv = None
     if (res == 'unknown' and use_cvc5 and expect == 'unsat') or (both and expect == 'unsat'):
-        cres, ct = _run_cvc5(txt, CVC5_TIMEOUT_S)
+        # thorough tier: cvc5 also looks at what z3 already decided, with a short budget (cross-check only)
+        cres, ct = _run_cvc5(txt, CVC5_TIMEOUT_S if res == 'unknown' else CVC5_CROSS_S)
         cv = (cres, ct)
         if res == 'unknown' and cres in ('sat', 'unsat'):
             res = cres
